@@ -286,6 +286,74 @@ def split_runs(events):
     return runs
 
 
+def parse_beh(out):
+    """Behaviours printed by MC_GasPayer_export: <<"BEH", "json">> (deduplicated, sorted for determinism)."""
+    raw = sorted({m.group(1) for m in re.finditer(r'<<\s*"BEH",\s*"((?:[^"\\]|\\.)*)"\s*>>', out)})
+    return [json.loads(json.loads('"' + x + '"')) for x in raw]
+
+
+def gaspayer_step(ctx):
+    """GasPayer.tla (growth, attached to C07): exhaustive model + behaviours replayed on the prototype native and
+    runtime.ExecuteTransaction. Signatures are prefixed gaspayer:."""
+    q = ctx.quick
+    ctx.tlc_must_hold("exec", "MC_GasPayer", cfg="MC_GasPayer.cfg" if q else "MC_GasPayer_thorough.cfg", workers=4,
+                      timeout=1200, label="gas payer resolution (exhaustive)")
+    must_be_refuted(ctx, "MC_GasPayer", "MC_GasPayer_bogus.cfg", "Bogus", "gaspayer non-vacuity")
+    r = ctx.tlc_must_hold("exec", "MC_GasPayer", cfg="MC_GasPayer_export.cfg", workers=1, timeout=900,
+                          simulate="num=%d" % (400 if q else 6000), depth=13, label="gaspayer behaviour export", count=False)
+    behs = parse_beh(r.out)
+    if len(behs) < 100:
+        raise Infra("gaspayer export produced only %d behaviours\n%s" % (len(behs), r.out[-1500:]))
+    binp = ctx.build("gaspayer")
+    out = ctx.tmp("gaspayer")
+
+    def replay(name, bs):
+        bp, rp = os.path.join(out, name + ".json"), os.path.join(out, name + "-result.json")
+        json.dump(bs, open(bp, "w"))
+        if run_driver(ctx, binp, ["-beh", bp, "-out", rp], "gaspayer", timeout=900) is None:
+            return None
+        return json.load(open(rp))
+    res = replay("behaviours", behs)
+    if res is None:
+        return
+    seen = set()
+    for m in (res["mismatches"] or []):
+        sig = "gaspayer:" + m["field"].split(":")[0]
+        if sig in seen:
+            continue
+        seen.add(sig)
+        b = behs[m["behaviour"]]
+        rp = ctx.save_replay("gaspayer-seed%d-%s.json" % (ctx.seed, m["field"].replace(":", "-")),
+                             {"behaviour": b, "mismatch": m, "how": "harness/cmd/gaspayer -beh <file with [behaviour]>"})
+        ctx.report(sig, "gas payer replay: behaviour %d step %d (%s): %s expected %s, real code %s" %
+                   (m["behaviour"], m["step"], m["action"], m["field"], m["want"], m["got"]), rp)
+    # binding demonstration: a behaviour whose expected payer / used credit is falsified must be flagged
+    demo = None
+    for b in behs:
+        for i, s in enumerate(b["steps"]):
+            if s["a"] == "ExecTx" and s["payer"] in ("s1", "s2", "contract"):
+                demo = json.loads(json.dumps(b))
+                demo["steps"][i]["post"]["used"][s["user"]] += 1
+                break
+        if demo:
+            break
+    if demo is None:
+        raise Infra("gaspayer: no behaviour with a sponsored transaction was exported")
+    dres = replay("demo", [demo])
+    if dres is None or not dres["mismatches"]:
+        raise Infra("gaspayer binding demonstration failed: a falsified used-credit expectation was not noticed")
+    ctx.cov["gaspayer_behaviours_replayed"] = res["behaviours"]
+    ctx.cov["gaspayer_steps_compared"] = res["steps"]
+    ctx.cov["gaspayer_txs"] = res["txs"]
+    ctx.cov["gaspayer_payers"] = res["payers"]
+    ctx.cov["gaspayer_mismatches"] = len(res["mismatches"] or [])
+    ctx.cov["gaspayer_binding_demo"] = "a behaviour with a falsified used-credit expectation was flagged by the replayer"
+    ctx.cov["traces_validated_against_impl"] += res["behaviours"] - len({m["behaviour"] for m in (res["mismatches"] or [])})
+    ctx.assumptions.append("GasPayer replay: accounts hold no VET (no energy growth), clauses are empty calls (gas used = intrinsic gas), "
+                           "legacy txs at the base gas price; plan/user/sponsor operations go through the prototype native binding with the "
+                           "contract-level guards (already user / not sponsor) as model preconditions")
+
+
 def parse_scn(out):
     """Scenarios printed by MC_TxExec_export*: <<"SCN", "json">>."""
     res = []
